@@ -70,6 +70,21 @@ def local_decl(facts, did):
     return _DECLS[key].get(did)
 
 
+def covers(ret, want):
+    """the reserved extent is the required one, possibly plus positive slack terms (extra bytes are harmless)"""
+    r = ret.replace(" ", "")
+    if r == want:
+        return True
+    for form in (want + "+", "+" + want):
+        if r.startswith(want + "+"):
+            rest = r[len(want) + 1:]
+            return re.fullmatch(r"[\w:]+(\*[\w:]+)*(\+[\w:]+(\*[\w:]+)*)*", rest) is not None
+        if r.endswith("+" + want):
+            rest = r[:-len(want) - 1]
+            return re.fullmatch(r"[\w:]+(\*[\w:]+)*(\+[\w:]+(\*[\w:]+)*)*", rest) is not None
+    return False
+
+
 def assignments_to(fn, member):
     out = []
     for x in walk(tbf.body(fn)):
@@ -328,15 +343,15 @@ def strides(facts, res):
             res.violation(R, f, off[0][0]["qname"], kind + ":stride-source", off[0][1]["l"][1],
                           "block kind %s derives its row stride from different quantities (%s / alignment %s): size, viewers and iteration would disagree" % (kind, sorted(cats), sorted(aligns)))
         if kind == "TbfMemoryMultiRVector":
-            if cats != {"count"} or ret != "NbRows*leadingDim":
+            if cats != {"count"} or not covers(ret, "NbRows*leadingDim"):
                 res.violation(R, f, size[0]["qname"], kind + ":extent", size[0]["l"][1], "multi-row block: extent must be NbRows x stride(count); found stride from %s, extent %s" % (sorted(cats), ret))
             want_calls = 5
         elif kind == "TbfMemoryMultiVVector":
-            if cats != {"rows"} or ret != "inNbItems*leadingDim":
+            if cats != {"rows"} or not covers(ret, "inNbItems*leadingDim"):
                 res.violation(R, f, size[0]["qname"], kind + ":extent", size[0]["l"][1], "multi-value block: extent must be count x stride(NbRows); found stride from %s, extent %s" % (sorted(cats), ret))
             want_calls = 5
         else:
-            if cats != {"count"} or ret != "leadingDim":
+            if cats != {"count"} or not covers(ret, "leadingDim"):
                 res.violation(R, f, size[0]["qname"], kind + ":extent", size[0]["l"][1], "extent must be the stride of the item count; found %s / %s" % (sorted(cats), ret))
             want_calls = 1
         if len(calls) < want_calls:
@@ -508,6 +523,31 @@ def buffer_order(facts, res, tier):
                             res.violation(R + ".starpu", tbf.rel(sf.path_of(x)), fn["qname"], "slots", x["l"][1], "handle array lists the blocks as %s" % got)
 
 
+def address_independent(facts, res):
+    """C14.4: nothing in the container / group classes derives a position inside a buffer from the numeric value of a pointer.
+    A byte copy lies at another address; a block, row or element whose place depends on the address (rounding a pointer up to
+    an alignment, offsets computed from `ptr % alignment`) is read at another place in the copy."""
+    R = "C14.4.address-independent"
+    n = 0
+    for fn in facts.functions:
+        if fn.get("inst") or tbf.body(fn) is None:
+            continue
+        path = tbf.rel(facts.path_of(fn)) if fn.get("l") else ""
+        if not (path.startswith("src/containers/") or path.startswith("src/core/") or path.startswith("verif:fixtures")):
+            continue
+        n += 1
+        for y in walk(tbf.body(fn)):
+            if y.get("k") in ("CXXReinterpretCastExpr", "CStyleCastExpr", "CXXFunctionalCastExpr") and kids(y):
+                to = (y.get("tw") or y.get("t") or "")
+                frm = (strip(kids(y)[0]).get("t") or "")
+                if "*" in frm and "*" not in to and re.search(r"(uintptr_t|intptr_t|size_t|ptrdiff_t|unsigned long|long|unsigned int|int)\s*$", to.strip()):
+                    res.violation(R, path, fn["qname"], "pointer-to-integer@%d" % y["l"][1], y["l"][1],
+                                  "`%s` turns a buffer pointer into a number in %s: a position computed from it differs between a buffer and its byte copy at another address, "
+                                  "so the copy viewed through the raw-memory constructors is read at shifted positions" % (facts.ntext(y)[:60], fn["name"]))
+    res.instance(R, "container and group classes", "src/containers, src/core", "%d functions: no pointer is converted to an integer" % n)
+    return n
+
+
 def run(res, tier):
     facts = tbf.scan("core")
     res.units.append("umbrella TU 'core': TbfMemoryBlock, 4 block kinds with their viewers, TbfCellsContainer / TbfParticlesContainer raw-memory interface")
@@ -517,3 +557,14 @@ def run(res, tier):
     trailer(facts, res)
     strides(facts, res)
     buffer_order(facts, res, tier)
+    res.rule("C14.4 no function of the container / group classes converts a buffer pointer into a number (positions inside a buffer depend on its content only, never on its address)")
+    n4 = address_independent(facts, res)
+    res.floor("C14.4", n4, 100, "container / group functions")
+    import os
+    fx = os.path.join(tbf.VERIF, "fixtures", "c14_address.cpp")
+    ff = tbf.scan_file(fx, [], [os.path.join(tbf.VERIF, "fixtures") + os.sep])
+    ctl = tbf.Result("control")
+    address_independent(ff, ctl)
+    if len(ctl.violations) != 1:
+        raise AnalysisBroken("positive control fixtures/c14_address.cpp: %d of 1 pointer-to-integer conversions reported" % len(ctl.violations))
+    res.instance("C14.4.address-independent", "positive control", "verif:fixtures/c14_address.cpp", "1 of 1 seeded constructs reported")
